@@ -69,6 +69,31 @@ Definition letters_of (lines : list string) : list ascii := flat_map (fun l => l
 Definition parse_plain (a : alphabet) (lines : list string) : option graph :=
   option_map (fun names => linear (add_termini a names)) (translate a (letters_of lines)).
 
+(* a comment may carry the PROTEIN keyword together with DNA or RNA (_identify_residues rejects only DNA with RNA):
+   every letter is then looked up in the DNA table, the RNA table, the amino-acid table in this order *)
+Record kinds := { k_dna : bool; k_rna : bool; k_aa : bool }.
+Definition kinds_ok (k : kinds) : bool := negb (k_dna k && k_rna k) && (k_dna k || k_rna k || k_aa k).
+Definition one_letter_mix (k : kinds) (c : ascii) : option string :=
+  match (if k_dna k then one_letter DNA c else None) with
+  | Some x => Some x
+  | None => match (if k_rna k then one_letter RNA c else None) with
+            | Some x => Some x
+            | None => if k_aa k then one_letter AA c else None
+            end
+  end.
+Fixpoint translate_mix (k : kinds) (letters : list ascii) : option (list string) :=
+  match letters with
+  | [] => Some []
+  | c :: r => match one_letter_mix k c, translate_mix k r with Some x, Some l => Some (x :: l) | _, _ => None end
+  end.
+Definition add_termini_mix (k : kinds) (l : list string) : list string :=
+  if k_dna k || k_rna k then set_last (set_first l (fun x => x ++ "5")) (fun x => x ++ "3") else l.
+Definition parse_plain_mix (k : kinds) (lines : list string) : option graph :=
+  if kinds_ok k then option_map (fun names => linear (add_termini_mix k names)) (translate_mix k (letters_of lines)) else None.
+Definition kinds_of (a : alphabet) : kinds :=
+  match a with DNA => {| k_dna := true; k_rna := false; k_aa := false |} | RNA => {| k_dna := false; k_rna := true; k_aa := false |}
+             | AA => {| k_dna := false; k_rna := false; k_aa := true |} end.
+
 (* Graph.add_edge on a simple graph: an existing edge between the same residues is relabelled *)
 Definition same_ends (e : nat * nat * bool) (a b : nat) : bool :=
   (Nat.eqb (fst (fst e)) a && Nat.eqb (snd (fst e)) b) || (Nat.eqb (fst (fst e)) b && Nat.eqb (snd (fst e)) a).
